@@ -385,7 +385,9 @@ def dltyped_namedtuple(
             return instance
 
         # Create the new class with our modified __new__ method
-        return cast("type[NT]", type(cls.__name__, (cls,), {"__new__": validated_new}))
+        # keep the module and qualified name of the original class so that instances stay picklable
+        namespace = {"__new__": validated_new, "__module__": cls.__module__, "__qualname__": cls.__qualname__}
+        return cast("type[NT]", type(cls.__name__, (cls,), namespace))
 
     return _inner_dltyped_namedtuple
 
